@@ -70,9 +70,11 @@ def _cplx(rng, shape):
 
 def build(case):
     """One preprocessed Ptychography instance.  Keys used: R, C (roi), gpts [g0, g1], S (slices),
-    M (probe modes), obj_type, pad [p0, p1], seed, val_ratio, val_mode.  Every model is seeded with
-    case["seed"]; two calls with the same case give two independent, identically initialised
-    instances."""
+    M (probe modes), obj_type, pad [p0, p1], seed, val_ratio, val_mode, optional rng_form ("int":
+    every model gets the int seed; "gen": every model gets its own fresh np.random.default_rng(seed))
+    and descan_jitter (non-constant initial descan shifts, so that a descan TV term is non-zero).
+    case["seed"] may be any non-negative int (also >= 2**32).  Two calls with the same case give two
+    independent, identically initialised instances."""
     Q = q()
     R, C = int(case["R"]), int(case["C"])
     g0, g1 = (int(v) for v in case["gpts"])
@@ -99,10 +101,20 @@ def build(case):
     cdt = getattr(Q.torch, Q.config.get("dtype_complex"))
     thick = 8.0 if S > 1 else None
 
+    form = case.get("rng_form", "int")
+
+    def sd():
+        return seed if form == "int" else np.random.default_rng(seed)
+
+    if case.get("descan_jitter"):
+        base = pdset.initial_descan_shifts.detach().cpu().numpy().astype(np.float64)
+        pdset.initial_descan_shifts = base + np.random.default_rng(seed + 3).uniform(-0.5, 0.5, base.shape)
+        pdset.reset()
+
     def mk(om):
-        pm = Q.ProbePixelated.from_array(probe_array=probe, probe_params={"energy": energy}, rng=seed, dtype=cdt)
+        pm = Q.ProbePixelated.from_array(probe_array=probe, probe_params={"energy": energy}, rng=sd(), dtype=cdt)
         pt = Q.Ptychography.from_models(
-            dset=pdset, obj_model=om, probe_model=pm, detector_model=Q.DetectorPixelated(), rng=seed, verbose=0
+            dset=pdset, obj_model=om, probe_model=pm, detector_model=Q.DetectorPixelated(), rng=sd(), verbose=0
         )
         pt.preprocess(
             obj_padding_px=tuple(int(v) for v in case["pad"]),
@@ -113,10 +125,10 @@ def build(case):
         )
         return pt
 
-    pt = mk(Q.ObjectPixelated.from_uniform(num_slices=S, slice_thicknesses=thick, obj_type=obj_type, rng=seed))
+    pt = mk(Q.ObjectPixelated.from_uniform(num_slices=S, slice_thicknesses=thick, obj_type=obj_type, rng=sd()))
     shp = tuple(int(v) for v in pt.obj_shape_full)
     if obj_type == "potential":
         o = rng.uniform(0.05, 1.0, shp)  # strictly positive: positivity clamp inactive, gradients not vacuous
     else:
         o = rng.uniform(0.5, 1.5, shp) * np.exp(1j * rng.uniform(-np.pi, np.pi, shp))
-    return mk(Q.ObjectPixelated.from_array(o, slice_thicknesses=thick, obj_type=obj_type, rng=seed))
+    return mk(Q.ObjectPixelated.from_array(o, slice_thicknesses=thick, obj_type=obj_type, rng=sd()))
